@@ -551,7 +551,8 @@ theorem replaceKids_no_internal (S : Schema) (ty : TypeId) (kids : List Node) (f
   intro h
   unfold replaceKids at h
   split at h
-  · simp at h
+  · simp only [rangeErr, Except.error.injEq] at h
+    split at h <;> simp at h
   · rename_i hg
     simp only [inRange, Bool.or_eq_true, Bool.not_eq_true', decide_eq_false_iff_not,
       decide_eq_true_eq, not_or, Nat.not_lt, Decidable.not_not] at hg
